@@ -136,6 +136,7 @@ class ParseEval(Unit):
 
     # numbers of the text
     def build(self, S):
+        S.time_eps(RV(Fraction(4, 10**11)))
         ents = []
         for k in range(self.nent):
             # TMID as the text holds it: a decimal MJD with eleven decimals, i.e. an integer number of 1e-11 days
